@@ -81,6 +81,8 @@ def rule_units(ctx):
     loop = [s for s in f.body if isinstance(s, ast.For) and norm(s.iter) == "UNITS_CONVERSION_FACTORS"]
     ok = False
     fact = "no loop over the table"
+    if not loop:
+        raise AnalysisError("to_kilometers: the loop over UNITS_CONVERSION_FACTORS was not found (table look-up in another form)")
     if loop:
         lp = loop[0]
         tu, tf = (lp.target.elts[0].id, lp.target.elts[1].id) if isinstance(lp.target, ast.Tuple) and len(lp.target.elts) == 2 else (None, None)
@@ -129,33 +131,62 @@ def _scale_walk(ctx, f, metric):
     def expr(n, env):
         return ev.expr(n, env, f, 0)
 
+    renv = {}      # names holding (a multiple of) the radius -> factor expression
+    denv = {}      # names holding (a multiple of) the tree distances
+
+    def mentions(node, names):
+        return any(isinstance(x, ast.Name) and x.id in names for x in ast.walk(node))
+
     def walk(stmts):
         for st in stmts:
             if isinstance(st, ast.Assign) and len(st.targets) == 1 and isinstance(st.targets[0], ast.Name):
                 name = st.targets[0].id
                 if calls_in(st.value, "to_kilometers") and isinstance(st.value, ast.Call):
+                    renv[name] = R
                     state["rname"], state["r"] = name, R
-                    continue
-                if state["rname"] and name == state["rname"]:
-                    state["r"] = expr(st.value, {state["rname"]: state["r"]})
                     continue
                 if calls_in(st.value, "query_radius"):
                     c = calls_in(st.value, "query_radius")[0]
-                    state["query_r"] = (norm(c.args[1]) if len(c.args) > 1 else None, state["r"])
+                    if len(c.args) > 1 and mentions(c.args[1], renv):
+                        state["r"] = expr(c.args[1], dict(renv))
+                        state["query_r"] = (state["rname"], state["r"])
+                    else:
+                        state["query_r"] = (norm(c.args[1]) if len(c.args) > 1 else None, state["r"])
                     continue
                 if any(isinstance(x, ast.Name) and "distance" in x.id for x in ast.walk(st.value)) and \
-                        (calls_in(st.value, "hstack") or calls_in(st.value, "concatenate")) and name != state["rname"]:
+                        (calls_in(st.value, "hstack") or calls_in(st.value, "concatenate")) and name not in renv:
+                    denv[name] = D
                     state["dname"], state["d"] = name, D
                     continue
-                if state["dname"] and name == state["dname"]:
-                    state["d"] = expr(st.value, {state["dname"]: state["d"]})
+                if mentions(st.value, renv) and not mentions(st.value, denv):
+                    try:
+                        renv[name] = expr(st.value, dict(renv))
+                    except Unsupported:
+                        renv.pop(name, None)
+                    continue
+                if mentions(st.value, denv):
+                    try:
+                        denv[name] = expr(st.value, dict(denv))
+                        state["d"] = denv[name] if name == state["dname"] else state["d"]
+                    except Unsupported:
+                        denv.pop(name, None)
                     continue
             elif isinstance(st, ast.AugAssign) and isinstance(st.target, ast.Name):
                 name = st.target.id
-                if name == state["rname"]:
-                    state["r"] = _binop(st.op, state["r"], expr(st.value, {name: state["r"]}))
-                elif name == state["dname"]:
-                    state["d"] = _binop(st.op, state["d"], expr(st.value, {name: state["d"]}))
+                if name in renv:
+                    renv[name] = _binop(st.op, renv[name], expr(st.value, dict(renv)))
+                elif name in denv:
+                    denv[name] = _binop(st.op, denv[name], expr(st.value, dict(denv)))
+                    if name == state["dname"]:
+                        state["d"] = denv[name]
+            elif isinstance(st, ast.Return) and st.value is not None and state["dname"] and mentions(st.value, denv):
+                # the distances as returned (possibly scaled in the return expression)
+                for e_ in (st.value.elts if isinstance(st.value, ast.Tuple) else [st.value]):
+                    if mentions(e_, denv):
+                        try:
+                            state["d"] = expr(e_, dict(denv))
+                        except Unsupported:
+                            pass
             elif isinstance(st, ast.If):
                 d = decided(st.test)
                 if d is True:
@@ -166,10 +197,12 @@ def _scale_walk(ctx, f, metric):
                     # branches that do not touch r / distances are irrelevant; otherwise undecidable
                     touched = [n for s in st.body + st.orelse for n in ast.walk(s)
                                if isinstance(n, (ast.AugAssign, ast.Assign)) and any(
-                                   isinstance(t, ast.Name) and t.id in (state["rname"], state["dname"])
+                                   isinstance(t, ast.Name) and (t.id in renv or t.id in denv)
                                    for t in ([n.target] if isinstance(n, ast.AugAssign) else n.targets))]
                     if touched:
                         raise AnalysisError("radius/distance scaled under an undecidable condition: %s" % norm(st.test))
+                    # a return of the distances inside an undecided branch (shuffled / not shuffled) still reports them
+                    walk([s_ for s_ in st.body + st.orelse if isinstance(s_, (ast.Return, ast.If))])
     walk(f.body)
     return state, R, D
 
@@ -206,9 +239,20 @@ def rule_deshuffle(ctx):
     fact = "no permutation of the build points found"
     for st in flow.stmts:
         if isinstance(st, ast.Assign) and isinstance(st.targets[0], ast.Name) and isinstance(st.value, ast.Subscript) \
-                and norm(st.value.value) == st.targets[0].id and isinstance(st.value.slice, ast.Attribute) \
-                and norm(st.value.slice).startswith("self."):
-            perm_attr = st.value.slice.attr
+                and norm(st.value.value) == st.targets[0].id:
+            sl = st.value.slice
+            attr_ = None
+            if isinstance(sl, ast.Attribute) and norm(sl).startswith("self."):
+                attr_ = sl.attr
+            elif isinstance(sl, ast.Name):
+                # a local that is also kept as the attribute: self.<sigma> = <local>
+                keep = [a_ for a_ in flow.stmts if isinstance(a_, ast.Assign) and isinstance(a_.targets[0], ast.Attribute) and norm(a_.targets[0]).startswith("self.")
+                        and norm(a_.value) == sl.id]
+                if len(keep) == 1:
+                    attr_ = keep[0].targets[0].attr
+            if attr_ is None:
+                continue
+            perm_attr = attr_
             fact = norm(st)
             # the tree is built from the permuted points
             trees = [c for c in calls_in(fi.node) if c.args and norm(c.args[0]) == st.targets[0].id and "tree" in norm(c.func).lower()]
@@ -241,6 +285,12 @@ def rule_deshuffle(ctx):
     # edges that legitimately bypass the translation
     def cls(t):
         """classify a conjunct: 'perm' (a permutation is in use), 'noperm', 'nonempty', 'empty' or None"""
+        if isinstance(t, ast.Name):
+            r_ = flow.single_def_value(t.id, t)
+            if r_ is not None:
+                t = r_[0]
+        while isinstance(t, ast.Call) and dotted(t.func) == "bool" and len(t.args) == 1:
+            t = t.args[0]
         x = norm(t)
         if x == "self.%s is None" % perm_attr:
             return "noperm"
